@@ -676,8 +676,21 @@ func (e *CoreExtension) functionRandom(args ...interface{}) (interface{}, error)
 		return nil, errors.New("max must be greater than min")
 	}
 
-	// Generate a random number in the range [min, max]
-	return min + rand.Intn(max-min+1), nil
+	// Generate a random number in the range [min, max]. The number of values in the
+	// range does not always fit an int (random(0, MaxInt64) has MaxInt64+1 of them, which
+	// made rand.Intn panic), so count in uint64, where 0 stands for all 2^64
+	span := uint64(max) - uint64(min) + 1
+	var offset uint64
+	switch {
+	case span == 0:
+		offset = rand.Uint64()
+	case span <= math.MaxInt64:
+		offset = uint64(rand.Int63n(int64(span)))
+	default:
+		for offset = rand.Uint64(); offset >= span; offset = rand.Uint64() {
+		}
+	}
+	return int(uint64(min) + offset), nil
 }
 
 func (e *CoreExtension) functionMax(args ...interface{}) (interface{}, error) {
